@@ -6,11 +6,11 @@
    removed from either side, re-created; object 1 garbage-collected at any point; in between ANY
    history of assignments and list mutations on all eight traits, any values, any lists).
    List mutators: any set [allowed] whose events replay (C05's law, [replay_ok]); proved for all
-   mutators except slice keys (simple_mutators_replay).  Termination is proved for arbitrary pools
+   mutators except extended slices (all_but_extended_slices_replay).  Termination is proved for arbitrary pools
    (propagation_depth_bounded); convergence for link graphs with several partners is covered by the
    correspondence only - cyclic_links_diverge shows why no general convergence theorem holds. *)
 From Coq Require Import ZArith List Bool Arith.
-From TV Require Import Common.Harness C20.ListSem C20.ListProofs C20.Model C20.Law C20.Steps C20.Proofs C20.Termination.
+From TV Require Import Common.Harness C20.ListSem C20.ListProofs C20.Model C20.Law C20.Steps C20.Proofs C20.Termination C20.SliceProofs.
 Import ListNotations.
 Open Scope Z_scope.
 
@@ -40,6 +40,24 @@ Theorem simple_mutators_replay :
   forall (l : list Z) (m : mut), simple_mut m = true -> replay_ok l m.
 Proof. exact simple_replay_ok. Qed.
 Print Assumptions simple_mutators_replay.
+
+(* ... and for slice keys with step None or 1: everything except extended slices *)
+Theorem all_but_extended_slices_replay :
+  forall (l : list Z) (m : mut), replayable_mut m = true -> replay_ok l m.
+Proof. exact replayable_replay_ok. Qed.
+Print Assumptions all_but_extended_slices_replay.
+
+(* the law on every accepted history whose mutators are not extended-slice operations, outright *)
+Theorem law_holds_without_extended_slices :
+  forall (F : nat) (h : list op) (va vb : list val),
+    typed va -> typed vb -> accepts (fun mu => replayable_mut mu = true) MFresh h ->
+    law_hist 0 [] [va; vb] (run (S (S F)) (init_state [va; vb]) h) = [].
+Proof.
+  intros F h va vb Ta Tb Ha.
+  exact (protocol_law (fun mu => replayable_mut mu = true) (fun mu H l => replayable_replay_ok l mu H)
+                      F h MFresh va vb [] 0 (conj Ta (conj Tb I)) Ha).
+Qed.
+Print Assumptions law_holds_without_extended_slices.
 
 Theorem mutual_converges :
   forall F n m va vb nts o,
